@@ -16,6 +16,7 @@ CONSTANTS
   WriterGuard = TRUE
   Defensive = FALSE
   EnvOn = TRUE
+  Bug = "none"
 SPECIFICATION TraceSpec
 INVARIANTS TypeOK AtMostOneReply ExactlyOneWhenFinished OneLeaderPerGeneration FollowersNeverDone
   TimedOutGenerationIsTombstone FailureIsPrivate InternalSkipsJoin RegroupBound Quiescent
